@@ -25,8 +25,16 @@ PKG = "chartparse"
 CHILD = r'''
 import dataclasses, enum, importlib, json, logging, re, sys, types
 order = json.loads(sys.argv[1])
-for m in order:
-    importlib.import_module("chartparse." + m)
+nfrom = int(sys.argv[2]) if len(sys.argv) > 2 else 0      # the first nfrom modules are imported as `from chartparse import m`
+bound = []
+for i, m in enumerate(order):
+    if i < nfrom:
+        ns = {}
+        exec("from chartparse import %s as _x" % m, ns)
+        x = ns["_x"]
+        bound.append([m, type(x).__name__, x is sys.modules.get("chartparse." + m)])
+    else:
+        importlib.import_module("chartparse." + m)
 
 def skip(k):
     return k.startswith("__") and k.endswith("__")
@@ -70,6 +78,7 @@ for name in sorted(sys.modules):
     if name == "chartparse" or name.startswith("chartparse."):
         mod = sys.modules[name]
         out[name] = [[k, fp(v, 3, frozenset())] for k, v in sorted(vars(mod).items()) if not skip(k)]
+out["<from-imports>"] = [[m, [t, same]] for (m, t, same) in bound]
 out["<process>"] = [["logging.getLoggerClass", "%s.%s" % (logging.getLoggerClass().__module__, logging.getLoggerClass().__qualname__)],
                     ["logging.root.level", logging.root.level], ["len(logging.root.handlers)", len(logging.root.handlers)]]
 print("FP " + json.dumps(out, sort_keys=True))
@@ -80,8 +89,8 @@ def _mods(repo):
     return sorted(f[:-3] for f in os.listdir(os.path.join(repo, PKG)) if f.endswith(".py") and f != "__init__.py")
 
 
-def fingerprint(order, repo=REPO_DIR):
-    p = subprocess.run([sys.executable, "-c", CHILD, json.dumps(order)], cwd="/", capture_output=True, text=True, timeout=120,
+def fingerprint(order, repo=REPO_DIR, nfrom=0, flags=()):
+    p = subprocess.run([sys.executable] + list(flags) + ["-c", CHILD, json.dumps(order), str(nfrom)], cwd="/", capture_output=True, text=True, timeout=120,
                        env={"PYTHONPATH": repo, "PATH": os.environ.get("PATH", ""), "PYTHONHASHSEED": "0"})
     for ln in p.stdout.splitlines():
         if ln.startswith("FP "):
@@ -91,7 +100,10 @@ def fingerprint(order, repo=REPO_DIR):
 
 def diff(a, b):
     out = []
-    for m in sorted(set(a) | set(b)):
+    for (m, (t, same)) in a.get("<from-imports>", []):
+        if t != "module" or not same:
+            out.append("`from chartparse import %s` bound a %s%s" % (m, t, "" if same else " that is not sys.modules['chartparse.%s']" % m))
+    for m in sorted((set(a) | set(b)) - {"<from-imports>"}):
         da, db = dict(map(lambda kv: (kv[0], kv[1]), a.get(m, []))), dict(map(lambda kv: (kv[0], kv[1]), b.get(m, [])))
         for k in sorted(set(da) | set(db)):
             if da.get(k) != db.get(k):
@@ -108,9 +120,9 @@ import importlib
 import vf
 vf.REPO_DIR = os.environ["VERIF_REPO"]
 import vf.im_state as S
-order, base = %r, %r
-a, ea = S.fingerprint(order, os.environ["VERIF_REPO"])
-b, eb = S.fingerprint(base, os.environ["VERIF_REPO"])
+order, base, nfrom, flags = %r, %r, %r, %r
+a, ea = S.fingerprint(order, os.environ["VERIF_REPO"], nfrom, flags)
+b, eb = S.fingerprint(base, os.environ["VERIF_REPO"], 0, flags)
 print("order A:", order, ea or "ok")
 print("order B:", base, eb or "ok")
 bad = a is None or b is None
@@ -133,14 +145,17 @@ def check(timeout=600, pairs=True, **kw):
     base, err = fingerprint(base_order, repo)
     if base is None:
         return {"verdict": "inconclusive", "detail": "baseline order does not import: %s" % err, "queries": 1, "nontrivial": 0, "solver_s": 0.0}
-    orders = [rest([m]) for m in mods]
+    # (order, how many leading modules are imported with the `from chartparse import m` spelling, interpreter flags)
+    cases = [(rest([m]), 0, ()) for m in mods]
     if pairs:
-        orders += [rest([a, b]) for a in mods for b in mods if a != b]
-    orders += [list(reversed(mods)), mods[1::2] + mods[0::2]]
+        cases += [(rest([a, b]), 0, ()) for a in mods for b in mods if a != b]
+    cases += [(list(reversed(mods)), 0, ()), (mods[1::2] + mods[0::2], 0, ())]
+    cases += [(rest([m]), 1, ()) for m in mods]                                  # the other import spelling, each module first
+    cases += [(rest([a, b]), 2, ()) for a in ("tick", "exceptions", "chart") for b in mods if a != b]
     bad = None
     n = 0
     with cf.ThreadPoolExecutor(max_workers=int(os.environ.get("VERIF_JOBS", "16"))) as ex:
-        for order, (fpv, e) in zip(orders, ex.map(lambda o: fingerprint(o, repo), orders)):
+        for (order, nf, fl), (fpv, e) in zip(cases, ex.map(lambda c: fingerprint(c[0], repo, c[1], c[2]), cases)):
             n += 1
             if bad is not None:
                 continue
@@ -150,14 +165,31 @@ def check(timeout=600, pairs=True, **kw):
                 continue
             d = diff(fpv, base)
             if d:
-                bad = (order, d)
+                bad = (order, d, nf, ())
+        # interpreter optimisation flags: every module still importable first, same bound objects as the
+        # chart-first order under the same flags
+        for fl in (("-O",), ("-OO",)):
+            fbase, ferr = fingerprint(base_order, repo, 0, fl)
+            n += 1
+            if fbase is None and bad is None:
+                bad = (base_order, ["not importable under %s: %s" % (" ".join(fl), ferr)], 0, fl)
+            fcases = [(rest([m]), 0, fl) for m in mods]
+            for (order, nf, _), (fpv, e) in zip(fcases, ex.map(lambda c: fingerprint(c[0], repo, c[1], c[2]), fcases)):
+                n += 1
+                if bad is not None:
+                    continue
+                if fpv is None:
+                    bad = (order, ["not importable under %s: %s" % (" ".join(fl), e)], 0, fl)
+                elif fbase is not None and diff(fpv, fbase):
+                    bad = (order, diff(fpv, fbase), 0, fl)
     res = {"queries": n + 1, "nontrivial": n + 1, "solver_s": 0.0, "validated": n + 1, "wall": round(time.time() - t0, 1),
            "samples": [{"baseline_order": base_order, "names_compared": sum(len(v) for v in base.values()),
-                        "orders": "%d first-imports%s + 2 permutations" % (len(mods), " + %d ordered pairs" % (len(mods) * (len(mods) - 1)) if pairs else "")}]}
+                        "orders": "%d first-imports%s + 2 permutations; %d first-imports and 33 pairs in the `from chartparse import m` spelling; %d first-imports under -O and under -OO"
+                                  % (len(mods), " + %d ordered pairs" % (len(mods) * (len(mods) - 1)) if pairs else "", len(mods), len(mods))}]}
     if bad:
-        order, d = bad
-        res.update(verdict="candidate", detail="after importing in the order %s these names differ from the chart-first order: %s" % (order[:3], d[:6]),
-                   call="import order %s" % order, replay_src=REPLAY % (VERIF_DIR, order, base_order))
+        order, d, nf, fl = bad
+        res.update(verdict="candidate", detail="after importing in the order %s (%d `from` imports, flags %s) these names differ from the chart-first order: %s" % (order[:3], nf, list(fl), d[:6]),
+                   call="import order %s" % order, replay_src=REPLAY % (VERIF_DIR, order, base_order, nf, list(fl)))
     else:
         res.update(verdict="holds", detail="identical bound objects (structural fingerprint, depth 3) in %d import orders" % (n + 1))
     return res
